@@ -3,6 +3,7 @@ package engine
 import (
 	"fmt"
 	"go/types"
+	"os"
 
 	"golang.org/x/tools/go/ssa"
 )
@@ -48,6 +49,14 @@ func (m *Machine) harnessAPI(fn *ssa.Function, a []Value) (Value, bool) {
 		m.assert(fromTerm(Or(c, pred)), msg)
 		m.assert(fromTerm(Or(c, Not(pred))), msg+" [known:"+id+"]")
 		return nil, true
+	case "vfReadRepoFile":
+		b, err := os.ReadFile("/repo/" + m.constName(a[0]))
+		if err != nil {
+			return "", true
+		}
+		return string(b), true
+	case "vfItoa":
+		return fromTerm(FromInt(toTerm(a[0]))), true
 	case "vfOr":
 		return fromTerm(Or(toTerm(a[0]), toTerm(a[1]))), true
 	case "vfAnd":
